@@ -18,7 +18,7 @@ func init() {
 		Assumptions: []string{
 			"storage contract of DESIGN.md §3.3 (snapshot cursors, Get->nil for missing keys)",
 			"the caller stops polling at the first error, as the README loop does; behaviour of further polls after an error is outside the property",
-			"an error counts as 'that error' if errors.As finds the injected *SimFault or the error text contains the fault's unique token",
+			"an error counts as 'that error' if errors.As finds the injected *SimFault or the error text contains the fault's unique token; at every fifth call index the injected value is io.EOF itself and at every seventh context.Canceled itself (values a library might be tempted to interpret rather than surface): there, errors.Is or the value's text decides",
 			"statement templates and stores are sampled by seed; positions within each sampled case are enumerated exhaustively",
 		},
 		Real: "real: all of github.com/c4pt0r/kvql built from /repo's working tree (lexer, parser, checker, optimizers, every plan node, functions) and beorn7/perks; simulated: the storage engine behind kvql.Storage/kvql.Cursor (SimStorage) and the calling application (driver)",
